@@ -29,16 +29,16 @@ type Write struct {
 var ErrInjected = errors.New("kvx13: injected storage failure")
 
 type Base struct {
-	mu      sync.Mutex
-	Inner   kv.Base
-	Log     []Write
-	failAt  int // 1-based index (within the current plan) of the write that fails; 0 = none
-	mode    Mode
-	counter int
-	loadFailAt, loads int // 1-based index of the LoadRange call that fails; 0 = none
-	parkAt  int           // 1-based index of the write that blocks until Release; 0 = none
-	parked  chan struct{} // signalled when the write is parked
-	release chan struct{}
+	mu                sync.Mutex
+	Inner             kv.Base
+	Log               []Write
+	failAt            int // 1-based index (within the current plan) of the write that fails; 0 = none
+	mode              Mode
+	counter           int
+	loadFailAt, loads int           // 1-based index of the LoadRange call that fails; 0 = none
+	parkAt            int           // 1-based index of the write that blocks until Release; 0 = none
+	parked            chan struct{} // signalled when the write is parked
+	release           chan struct{}
 }
 
 // PlanPark makes the n-th write from now on block (before it is applied) until Release is called; clears the log.
